@@ -60,6 +60,10 @@ EXPLANATION += (
     " Round 5: the pre-flight reconciliation of taxonomy and marker cache can fail only through the place where a parent of the run's tree is found without markers (R-MUST/rejects-only-missing-parent)."
 )
 
+EXPLANATION += (
+    ' Round 7: single-child parents, the root included, are exempt from needing markers wherever the table is validated (R-FOLD/single-child-exempt, rule of C08).'
+)
+
 RULE_TEXT = (
     "one obligation per value-identity / provenance / dominance relation "
     "named above; non-trivial when both ends of the relation exist")
@@ -82,6 +86,10 @@ def check(ctx):
     check_backfill(ctx)
     check_level_keys(ctx)
     check_reconcile_one_sided(ctx)
+    # single-child parents (the root included) are exempt from needing
+    # markers wherever the table is validated or consulted (rule of C08)
+    from .C08 import check_single_child
+    check_single_child(ctx)
     from .C10 import check_node_identity
     check_node_identity(ctx, ('type_assignment.election', 'taxonomy.taxonomy_tree'), floor=2)
 
